@@ -14,6 +14,7 @@ RULE = ('models: regression catalogue + exhaustive enumeration (all models with 
         '(position automaton with unrolled occurrence ranges, and derivative-automaton exploration over marked symbols, '
         'which must agree); a case = (version, model); non-trivial = nested or counted model with >= 2 leaf particles of '
         'which two overlap in symbols, counted on distinct canonical models')
+RULE += (' ' + 'Shard twoheads: XSD 1.1 models over references to two unrelated heads that share a substitution-group member.')
 ASSUMPTIONS = [
     'UPA is read on particles: two unrolled copies of the same particle never clash (counter ambiguity is not a UPA violation)',
     'XSD 1.1: element/wildcard competition is not an error; wildcard/wildcard and element/element competition is',
